@@ -321,4 +321,54 @@ theorem deliver_end : ∀ (items : List Item) (m : LX), m.enabled = true → m.o
       · have : dd + 1 + totalDur is = (dd + totalDur is) + 1 := by omega
         rw [this, evAt_succ, ht, c2]; exact ih2
 
+/-- the tick in which the machine stops delivers `END` last -/
+theorem lxTick_stop_last (m : LX) (hen : m.enabled = true) (hdis : (lxTick m).1.enabled = false) :
+    (lxTick m).2.getLast? = some endEvent := by
+  have hfetch : ∀ m' : LX, m'.enabled = true → (lxFetch m').1.enabled = false → (lxFetch m').2.getLast? = some endEvent := by
+    intro m' h1 h2
+    unfold lxFetch at h2 ⊢
+    by_cases hf : (fetchPass m'.t m'.loop m'.loopT m'.rest).found = true
+    · rw [if_pos hf] at h2; simp only at h2; rw [h1] at h2; cases h2
+    · rw [if_neg hf] at h2 ⊢
+      cases hl : (fetchPass m'.t m'.loop m'.loopT m'.rest).loop with
+      | none => simp
+      | some L =>
+        rw [hl] at h2
+        simp only at h2 ⊢
+        by_cases hj : (m'.t : Int) ≠ (fetchPass m'.t m'.loop m'.loopT m'.rest).loopT ∧ (m'.t : Int) ≠ m'.lastJump
+        · rw [if_pos hj] at h2 ⊢
+          by_cases hf2 : (fetchPass m'.t (some L) (fetchPass m'.t m'.loop m'.loopT m'.rest).loopT L).found = true
+          · rw [if_pos hf2] at h2; simp only at h2; rw [h1] at h2; cases h2
+          · rw [if_neg hf2]; simp
+        · rw [if_neg hj]; simp
+  unfold lxTick at hdis ⊢
+  rw [show (!m.enabled) = false by simp [hen]] at hdis ⊢
+  simp only [Bool.false_eq_true, if_false] at hdis ⊢
+  by_cases h1 : m.on > 0
+  · rw [if_pos h1] at hdis ⊢
+    by_cases h2 : m.on = 1 ∧ m.off = 0
+    · rw [if_pos h2] at hdis ⊢; exact hfetch _ hen hdis
+    · rw [if_neg h2] at hdis; simp only at hdis; rw [hen] at hdis; cases hdis
+  · rw [if_neg h1] at hdis ⊢
+    by_cases h2 : m.off > 0
+    · rw [if_pos h2] at hdis ⊢
+      by_cases h3 : m.off = 1
+      · rw [if_pos h3] at hdis ⊢; exact hfetch _ hen hdis
+      · rw [if_neg h3] at hdis; simp only at hdis; rw [hen] at hdis; cases hdis
+    · rw [if_neg h2] at hdis ⊢; exact hfetch _ hen hdis
+
+/-- if the machine stops within `n` ticks, the last event of these ticks is `END` -/
+theorem lxRun_stop_last : ∀ (n : Nat) (m : LX), m.enabled = true → (lxAfter n m).enabled = false →
+    (lxRun n m).flatten.getLast? = some endEvent
+  | 0, m, h1, h2 => by simp only [lxAfter] at h2; rw [h1] at h2; cases h2
+  | n + 1, m, h1, h2 => by
+    simp only [lxRun, List.flatten_cons]
+    cases hen : (lxTick m).1.enabled with
+    | false =>
+      have hl := lxTick_stop_last m h1 hen
+      rw [lxRun_disabled n _ hen, List.append_nil]; exact hl
+    | true =>
+      have ih := lxRun_stop_last n (lxTick m).1 hen (by simpa [lxAfter] using h2)
+      rw [List.getLast?_append, ih]; rfl
+
 end Ctrmml.TickStream
